@@ -2,6 +2,7 @@ import FP.Model.Json
 import FP.Model.Euler
 import FP.Model.Search
 import FP.Model.Wrapper
+import FP.Model.Enc.Parse
 /-!
 # Line-protocol driver: one JSON request per line on stdin, one JSON answer per line on stdout.
 -/
@@ -114,6 +115,18 @@ def handle (j : Json) : Except String Json := do
     let fld := if f = "lower" then GetColsField.lower else if f = "cost" then .cost else .upper
     let s := wrun fld ops
     return Json.arr (s.cols.map (fun c => strArr [ratStr c.lb, ratStr c.ub, ratStr c.cost])).toArray
+  | "augment" =>
+    let g ← parseGraph j
+    let starts := (jList (·.getStr?) j "starts").toOption.getD []
+    let ends := (jList (·.getStr?) j "ends").toOption.getD []
+    return graphJson (augment g starts ends).g
+  | "lp.kfd" =>
+    let inp ← parseFlowInput j
+    match ← optField j "given_weights" (asList asRat) with
+    | none => return strArr (kfdLP inp).dump
+    | some ws =>
+      let ok ← jNat j "original_k"
+      return strArr (kfdGivenLP { inp with cfg := { inp.cfg with k := ws.length, allowEmpty := true } } ws ok).dump
   | _ => .error s!"unknown op {op}"
 
 partial def loop (h : IO.FS.Stream) (out : IO.FS.Stream) : IO Unit := do
